@@ -12,6 +12,7 @@ import NixModel.Drive.Ids
 import NixModel.Drive.Props
 import NixModel.Drive.Frame
 import NixModel.Drive.Search
+import NixModel.Drive.Valid
 /-
   nixmodel: reads a trace (op lines with the implementation's recorded result after `=>`),
   replays each op on the Lean model, evaluates the property relations on the implementation's
@@ -26,6 +27,7 @@ def handlers : List (DState → String → List String → List String → Optio
   fun st op args impl => (Units.handle op args impl).map fun o => (st, o),
   Index.handle,
   Array.handle,
+  Valid.handle,
   Store.handle,
   Modes.handle,
   Crash.handle,
@@ -59,6 +61,9 @@ def step (st : DState) (line : String) : DState × Option String :=
             | none => st')
           | none => { st' with smodel := { st'.smodel with lost := some "sr_mkalias on an unknown slot" } })
         | _, _ => st'
+      -- raw HDF5 edits and setters of the validator family change the file behind the store model's back
+      let st' := if op == "vl_raw" || op == "vl_set" then
+          { st' with smodel := { st'.smodel with lost := some "file edited outside the store grammar" } } else st'
       (st', some o.render)
     | none => (st, some Out.unknown.render)
 
